@@ -16,12 +16,14 @@ CONSTANTS Repaired, MaxRuns
 Cmds == {"bar", "baz"}
 Kinds == {"bar_ok", "bar_many", "baz_ok", "baz_many", "baz_badopt", "help_foo", "help_baz", "foo_dashhelp",
           "help_foo_many", "help_baz_many", "version", "undefined", "help_undefined", "empty",
-          "bare_badopt", "help_badopt", "baz_dashh"}
+          "bare_badopt", "help_badopt", "baz_dashh",
+          "alias_ok", "alias_many", "help_alias"}          \* baz has the alias bz
 \* concrete lines (mirrored by the driver)
 Lines == [bar_ok |-> "foo v", bar_many |-> "foo a b", baz_ok |-> "baz w", baz_many |-> "baz a b c", baz_badopt |-> "baz --nope",
           help_foo |-> "help foo", help_baz |-> "help baz", foo_dashhelp |-> "foo v --help", help_foo_many |-> "help foo a b",
           help_baz_many |-> "help baz a b c", version |-> "--version", undefined |-> "nope", help_undefined |-> "help nope",
-          empty |-> "", bare_badopt |-> "--bogus", help_badopt |-> "help --bogus", baz_dashh |-> "baz w -h"]
+          empty |-> "", bare_badopt |-> "--bogus", help_badopt |-> "help --bogus", baz_dashh |-> "baz w -h",
+          alias_ok |-> "bz w", alias_many |-> "bz a b c", help_alias |-> "help bz"]
 
 VARIABLES lenient,   \* [Cmds -> BOOLEAN]  the override in force between runs (FALSE = strict, as configured)
           hist,      \* outcomes so far: [kind, class]
@@ -30,15 +32,16 @@ vars == <<lenient, hist, last>>
 
 \* the command a line is parsed for, and whether its positionals exceed what the command declares
 Target(k) == CASE k \in {"bar_ok", "bar_many", "help_foo", "foo_dashhelp", "help_foo_many"} -> "bar"
-               [] k \in {"baz_ok", "baz_many", "baz_badopt", "help_baz", "help_baz_many", "baz_dashh"} -> "baz"
+               [] k \in {"baz_ok", "baz_many", "baz_badopt", "help_baz", "help_baz_many", "baz_dashh",
+                        "alias_ok", "alias_many", "help_alias"} -> "baz"
                [] OTHER -> "none"
-Surplus(k) == k \in {"bar_many", "baz_many", "help_foo_many", "help_baz_many"}
+Surplus(k) == k \in {"bar_many", "baz_many", "help_foo_many", "help_baz_many", "alias_many"}
 \* outcome class of one run, given the overrides at its start
 Class(k, len) ==
-  CASE k \in {"bar_ok", "baz_ok"} -> "handled"
-    [] k \in {"bar_many", "baz_many"} -> IF len[Target(k)] THEN "handled" ELSE "error"   \* surplus is ignored when lenient
+  CASE k \in {"bar_ok", "baz_ok", "alias_ok"} -> "handled"
+    [] k \in {"bar_many", "baz_many", "alias_many"} -> IF len[Target(k)] THEN "handled" ELSE "error"   \* surplus is ignored when lenient
     [] k = "baz_badopt" -> IF len["baz"] THEN "handled" ELSE "error"
-    [] k \in {"help_baz", "help_baz_many", "foo_dashhelp", "baz_dashh"} -> "help"
+    [] k \in {"help_baz", "help_baz_many", "foo_dashhelp", "baz_dashh", "help_alias"} -> "help"
     \* foo has a default sub-command.  Repaired: the help resolver parses the selected command leniently itself.
     \* Pinned: the resolver had already parsed the line strictly for it (missing x / surplus) and that cached result
     \* was used although leniency was switched on afterwards.
@@ -50,7 +53,7 @@ Class(k, len) ==
 \* what a run leaves behind.  Pinned: the help resolver enabled leniency on the command, resolved (may raise), disabled
 \* it - a failing resolution skipped the restore.  Repaired: nothing is toggled.
 Leaves(k, len) ==
-  IF ~Repaired /\ k \in {"help_foo", "help_baz", "help_foo_many", "help_baz_many", "foo_dashhelp", "baz_dashh"}
+  IF ~Repaired /\ k \in {"help_foo", "help_baz", "help_foo_many", "help_baz_many", "foo_dashhelp", "baz_dashh", "help_alias"}
   THEN IF Class(k, len) = "error" THEN [len EXCEPT ![Target(k)] = TRUE] ELSE [len EXCEPT ![Target(k)] = FALSE]
   ELSE len
 
